@@ -52,6 +52,13 @@ def step (d : St) (args : List String) : St × String :=
       let idx := match r.entry with | some (_, i) => toString i | none => "-"
       ({ d with st := st' }, s!"{r.status.toString} id={strToHex r.id} idx={idx}")
     | _, _, _, _, _ => (d, "bad-op")
+  | "gensalt" :: fs =>
+    -- C08: salts are pairwise distinct (RNG contract) and marked iff the cipher's salt leaves enough entropy
+    match (field? fs "size").bind parseNat?, (field? fs "n").bind parseNat? with
+    | some size, some n =>
+      let m := if Auth.marked size Gen.serverSaltMarkLen Gen.minSaltEntropy then n else 0
+      (d, s!"distinct={n} marked={m}")
+    | _, _ => (d, "bad-op")
   | _ => (d, "bad-op")
 
 end OutlineModel.Drive.Auth
